@@ -1,6 +1,7 @@
 import TsV.Model.Files
 import TsV.Model.Generate
 import TsV.Lemmas.CollectMulti
+import TsV.Lemmas.MinByKey
 /-!
 # C14 — multi-file mode partitions types by crate and imports cross-crate references
 
@@ -287,13 +288,8 @@ theorem usedImports_sound (d : ParsedData) (all : List (Str × List Str)) (impor
 /-- the fallback oracle of the pipeline only names other crates that define the type -/
 theorem firstOther_sound (all : List (Str × List Str)) (current n c : Str)
     (h : Generate.firstOther all current n = some c) : c ≠ current ∧ Defines all c n := by
-  unfold Generate.firstOther at h
-  rw [Option.map_eq_some_iff] at h
-  obtain ⟨⟨c', names⟩, hf, rfl⟩ := h
-  have hp := List.find?_some hf
-  have hm := List.mem_of_find?_eq_some hf
-  simp only [Bool.and_eq_true, bne_iff_ne, ne_eq] at hp
-  exact ⟨hp.1, names, hm, by simpa using hp.2⟩
+  obtain ⟨⟨names, hm, hne, hn⟩, _⟩ := MinByKey.firstOther_spec h
+  exact ⟨hne, names, hm, hn⟩
 
 /-! ### non-vacuity -/
 example : findCrateName [s%"home", s%"op-proxy", s%"src", s%"android.rs"] = some s%"op_proxy" := by decide
